@@ -84,7 +84,7 @@ READ_BASICS = ['R-TAIL-PROTOCOL', 'R-READ-RESETS', 'R-BST-AGREE', 'R-PRIMITIVES'
 
 
 def G(pid):
-    return generic(pid, 'R-LOOP-CARRIED', 'R-ENCODED', 'R-NULL-THRESHOLD', 'R-NO-SWALLOW')
+    return generic(pid, 'R-LOOP-CARRIED', 'R-ENCODED', 'R-NULL-THRESHOLD', 'R-NO-SWALLOW', 'R-RETURN-SHAPE')
 
 
 RULESETS = {
